@@ -378,6 +378,7 @@ def check_C06(tier):
     r = tlc("MC_Extract", cfg_text(constants={"Dev": set(), "CaseSets": {q("rows"), q("admit")}}, invariants=["Independent", "Admission", "Emit"]), "extract-C06", workers=W, timeout=1500)
     expect_holds(r, "Extract rules (rows, admit)"); c.add_tlc(r)
     c.add_report(vh_replay("extract", r.replay_path, "extract-C06", env_extra={"TZ": "UTC"}), reg("TableDefinition::extract (admission) vs Extract.tla", "extract"))
+    extract_trace(c, tier)
     laws_trace(c, 2 if t else 1, 300 if t else 100)
     engine_sim(c, "noise", "NoiseMenu", lines="LinesNoise", maxlines=12, num=1500 if t else 120, tdefs=("plain", "bothnn"))
     engine_union(c, t)
@@ -552,12 +553,14 @@ def check_C16(tier):
 
 
 # =====================================================================================  C13 / C20 / C14
-def trace_check(c, module, trace_module, n, name, what, constants=None, rounds=1, env=None, invariants=("TraceUnfinished",), extra=None):
-    """impl -> spec helper: record a trace with `vh trace <module>` and validate it with TLC"""
+def trace_check(c, module, trace_module, n, name, what, constants=None, rounds=1, env=None, invariants=("TraceUnfinished",), extra=None, per_pid=False):
+    """impl -> spec helper: record a trace with `vh trace <module>` and validate it with TLC
+    (per_pid: each property's check draws its own random trace)"""
     for i in range(rounds):
-        tp = vh_trace(module, n, "%s%d" % (name, i), seed_=vlib.seed() * 100 + i, env_extra=env)
+        sd = vlib.seed() * 100 + i + (1000003 * int(c.pid[1:]) if per_pid else 0)
+        tp = vh_trace(module, n, "%s%d" % (name, i), seed_=sd, env_extra=env)
         if tp is None:
-            c.violation(what + ": hang", {"seed": vlib.seed() * 100 + i}); continue
+            c.violation(what + ": hang", {"seed": sd}); continue
         ex = {"constraint": "TrackProgress"}
         ex.update(extra or {})
         ok, tr = validate_trace(trace_module, tp, "trace-%s%d" % (name, i), constants=constants or {}, invariants=list(invariants),
@@ -567,6 +570,12 @@ def trace_check(c, module, trace_module, n, name, what, constants=None, rounds=1
         if ok:
             c.traces += nev; c.evaluations += nev
             c.extra[name + "_trace_events_accepted"] = c.extra.get(name + "_trace_events_accepted", 0) + nev
+            for ln in tr.log.splitlines():
+                if "TRACE-STATS" in ln:      # events whose outcome the model predicted (the rest are only checked for totality)
+                    nums = [int(x) for x in ln.replace(">>", " ").replace(",", " ").split() if x.isdigit()]
+                    c.extra[name + "_trace_events_predicted"] = c.extra.get(name + "_trace_events_predicted", 0) + (nums[0] if nums else 0)
+                    if nums and nums[0] * 2 < nev:
+                        raise ToolError("%s: the model predicted fewer than half of the recorded events (%d of %d): the trace check is nearly vacuous" % (name, nums[0], nev))
             if len(c.samples) < 8:
                 c.samples.append({"kind": what, "event": json.loads(open(tp).readline())})
         else:
@@ -645,11 +654,21 @@ def extract_check(pid, tier, sets, what):
     c.add_report(rep, reg(what, "extract"))
     # the admission rule and the extracted values as every statement kind sees them (Engine.tla over table variants)
     engine_run(c, "admission", "CoreMenu", lines="LinesNoise", maxlines=2, maxfiles=1, tdefs=("plain", "knn", "vdef", "bothnn"))
+    extract_trace(c, tier)
     c.assumptions = ["the regex crate is trusted for matching itself; the capture groups of every generated line are cross-checked against it directly (a disagreement is a tool error)",
                      "REAL literals outside plain decimals, a TIMESTAMP whose month group did not take part, duplicate JSON keys and numbers beyond i64 read as REAL are left open (outcome not compared, only totality)",
                      "semantic comparison under TZ=UTC"]
     c.exhaustive = True
     return c
+
+
+def extract_trace(c, tier):
+    """impl -> spec, semantic: random definitions (a pool of realistic patterns in capture / split mode, inline patterns, JSON paths, every type and modifier) x random lines
+    (log-like tokens with CR / TAB / Unicode blanks / numeric extremes; JSON written with escapes, blanks and other number spellings). What the patterns match and what the line
+    is as JSON come from the regex / serde_json crates; Trace_Extract.tla computes the row from that with Extract.tla and demands the observed row."""
+    t = tier == "thorough"
+    trace_check(c, "extract", "Trace_Extract", 20000 if t else 4000, "extract", "random definitions x lines vs Extract.tla (trace)", constants={"Dev": set()},
+                rounds=4 if t else 1, env={"TZ": "UTC"}, per_pid=True)
 
 
 def check_C01(tier):
